@@ -92,6 +92,7 @@ def run_case(case):
     obs = {"exc": None, "code": None, "st": None, "rpcs": 0, "how": None}
     try:
         with F.FakeFluxInstalled():
+            F.WORLD.reset()
             adapter, obs["how"] = F.make_adapter("flux:" + ver)
             dead = DEAD[case["dead"]]() if case.get("dead") else None
             F.WORLD.reset(unknown=[int(F.JobID(i)) for i in ids if i not in broker], dead=dead, order=order)
